@@ -5,7 +5,10 @@
 // each point; without the tag every call compiles to nothing.
 package verifhook
 
-import "sync/atomic"
+import (
+	"sync/atomic"
+	"time"
+)
 
 type Handler func(site string, kv ...any)
 
@@ -28,4 +31,24 @@ func Hit(site string, kv ...any) {
 	if h := handler.Load(); h != nil {
 		(*h)(site, kv...)
 	}
+}
+
+var pace atomic.Pointer[func(time.Duration) time.Duration]
+
+// SetPace installs a function that rescales the pauses of retry loops (nil removes it), so that a
+// harness can walk through many failing downloads without waiting out every back-off.
+func SetPace(f func(time.Duration) time.Duration) {
+	if f == nil {
+		pace.Store(nil)
+		return
+	}
+	pace.Store(&f)
+}
+
+// Pace returns how long a retry loop pauses when it was asked to pause for d.
+func Pace(d time.Duration) time.Duration {
+	if f := pace.Load(); f != nil {
+		return (*f)(d)
+	}
+	return d
 }
